@@ -306,3 +306,25 @@ def _c17_combined_invalid(case, observed):
     if content:
         nd["content"] = content
     return validity.node_problem(c.model, nd) is not None
+
+
+@predicate("add-mark-skips-non-atom-inline-container")
+def _c13_non_atom(case, observed):
+    """C13: the range of an add_mark contains the opening token of an inline node that has content and is not an
+    atom: AddMarkStep only marks atoms, so that node does not get the mark (while Transform.add_mark still strips
+    the marks the new one excludes from it)."""
+    op = case.get("op") or {}
+    if op.get("op") != "add_mark":
+        return False
+    from . import adapters
+    from .ref import positions as rp
+
+    c = adapters.Ctx(case["schema"], case["spec"]) if case.get("spec") else adapters.ctx(case["schema"])
+    ref = rp.RefDoc(c.model, case["doc"])
+    for n in ref.all_nodes():
+        if n.parent is None or n.is_text or n.is_leaf:
+            continue
+        if n.tm.is_inline and not n.tm.atom and op["from"] <= n.pos < op["to"] and \
+                c.model.allows_mark(n.parent.type, op["mark"]["type"]):
+            return True
+    return False
